@@ -244,7 +244,7 @@ EXTRA8 = {
 }
 EXTRA10 = {
     "C03": " Wave 10: wiring-time passive tags also on inputs of the real static nodes.",
-    "C05": " Wave 10: duration windows - a push that prunes nothing leaves no removed value to read.",
+    "C05": " Wave 10: duration windows - a push that prunes nothing leaves no removed value to read; a dynamic-list mode (several elements per cycle: delta_value, capture_delta and modified_items list exactly the written indices).",
     "C09": " Wave 10: the application's own argument tagged passive(...) (known finding F33).",
 }
 EXTRA9 = {
